@@ -11,6 +11,8 @@ use crate::format;
 use thrift::protocol::TCompactOutputProtocol;
 
 //@fn metadata/loader.rs decode_metadata (+ thrift.rs reader, schema/types.rs schema_from_thrift, metadata RowGroupMetaData::from_thrift, statistics::from_thrift)
+//@fn metadata/loader.rs MetaDataLoader::load_from_file
+//@fn metadata/statistics.rs from_thrift
 
 fn valid_footer() -> Vec<u8> {
     let schema = vec![
@@ -141,4 +143,160 @@ fn c19_footer__damaged_metadata_ok_or_err_never_panic__nat() {
     }
     assert!(cases > 800);
 }
+// C19 (bounded stand-in, native; NOT a proof): the file tail `<metadata> <u32 metadata length> PAR1` lies about the
+// metadata length.  `MetaDataLoader::load_from_file` on a small valid file whose length field is replaced by each of
+// 0, 1, real - 1, real, real + 1, (bytes before the tail), (bytes before the tail) + 1, file size, 2^20, 2^31, u32::MAX
+// (with and without leading data pages' worth of padding) returns Ok or Err, does not panic, and does not allocate from
+// the length field alone: the resident-memory high-water mark of the process grows by less than 256 MiB (a 4 GiB
+// zero-filled buffer for a 100-byte file would be visible).
+fn vm_hwm_kib() -> Option<u64> {
+    let s = std::fs::read_to_string("/proc/self/status").ok()?;
+    let l = s.lines().find(|l| l.starts_with("VmHWM:"))?;
+    l.split_whitespace().nth(1)?.parse().ok()
+}
+
+/// a seekable in-memory file (the crate's MemoryFileHandle does not support seek); a seek before the start of the file
+/// fails like lseek(2) does
+#[derive(Debug)]
+struct SeekableMem {
+    data: Vec<u8>,
+    pos: u64,
+}
+impl glaredb_core::runtime::filesystem::FileHandle for SeekableMem {
+    fn path(&self) -> &str {
+        "mem.parquet"
+    }
+    fn size(&self) -> u64 {
+        self.data.len() as u64
+    }
+    fn poll_read(&mut self, _cx: &mut std::task::Context, buf: &mut [u8]) -> std::task::Poll<Result<usize>> {
+        let start = (self.pos as usize).min(self.data.len());
+        let n = buf.len().min(self.data.len() - start);
+        buf[..n].copy_from_slice(&self.data[start..start + n]);
+        self.pos += n as u64;
+        std::task::Poll::Ready(Ok(n))
+    }
+    fn poll_write(&mut self, _cx: &mut std::task::Context, _buf: &[u8]) -> std::task::Poll<Result<usize>> {
+        std::task::Poll::Ready(Err(DbError::new("read-only")))
+    }
+    fn poll_seek(&mut self, _cx: &mut std::task::Context, seek: std::io::SeekFrom) -> std::task::Poll<Result<()>> {
+        let target: i128 = match seek {
+            std::io::SeekFrom::Start(p) => p as i128,
+            std::io::SeekFrom::End(d) => self.data.len() as i128 + d as i128,
+            std::io::SeekFrom::Current(d) => self.pos as i128 + d as i128,
+        };
+        if target < 0 {
+            return std::task::Poll::Ready(Err(DbError::new("seek before the start of the file")));
+        }
+        self.pos = target as u64;
+        std::task::Poll::Ready(Ok(()))
+    }
+    fn poll_flush(&mut self, _cx: &mut std::task::Context) -> std::task::Poll<Result<()>> {
+        std::task::Poll::Ready(Ok(()))
+    }
+}
+
+fn block_on_ready<F: std::future::Future>(fut: F) -> F::Output {
+    let mut fut = std::pin::pin!(fut);
+    let mut polls = 0;
+    loop {
+        match fut.as_mut().poll(&mut glaredb_core::util::task::noop_context()) {
+            std::task::Poll::Ready(v) => return v,
+            std::task::Poll::Pending => {
+                polls += 1;
+                assert!(polls < 10_000, "future on the memory file never completes");
+            }
+        }
+    }
+}
+
+#[test]
+fn c19_footer__lying_metadata_length_ok_or_err_bounded_allocation__nat() {
+    let footer = valid_footer();
+    let real = footer.len() as u64;
+    let mut cases = 0usize;
+    for pad in [0usize, 4, 64] {
+        let before_tail = (4 + pad + footer.len()) as u64;
+        let size = before_tail + 8;
+        for claimed in [0u64, 1, real - 1, real, real + 1, before_tail, before_tail + 1, size, 1 << 20, 1 << 31, u32::MAX as u64] {
+            let mut file = b"PAR1".to_vec();
+            file.extend(std::iter::repeat(0u8).take(pad));
+            file.extend_from_slice(&footer);
+            file.extend_from_slice(&(claimed as u32).to_le_bytes());
+            file.extend_from_slice(b"PAR1");
+            let hwm_before = vm_hwm_kib();
+            let bytes = file.clone();
+            let res = std::panic::catch_unwind(move || {
+                let mut f = AnyFile::from_file(SeekableMem { data: bytes, pos: 0 });
+                block_on_ready(MetaDataLoader::new().load_from_file(&mut f)).map(|m| m.row_groups.len()).map_err(|e| e.to_string())
+            });
+            let what = format!("file of {} bytes (metadata of {real} bytes) announcing a metadata length of {claimed}", file.len());
+            match res {
+                Err(p) => {
+                    let msg = p.downcast_ref::<String>().cloned().or_else(|| p.downcast_ref::<&str>().map(|s| s.to_string())).unwrap_or_default();
+                    panic!("loading the Parquet footer panics on a {what}: {}", msg.lines().next().unwrap_or(""));
+                }
+                Ok(Ok(n)) => assert!(claimed == real && n == 1 || claimed != real, "valid file decoded wrongly"),
+                Ok(Err(e)) => assert!(claimed != real, "the valid file ({what}) was rejected: {}", e.lines().next().unwrap_or("")),
+            }
+            if let (Some(a), Some(b)) = (hwm_before, vm_hwm_kib()) {
+                assert!(
+                    b.saturating_sub(a) < 256 * 1024,
+                    "loading the Parquet footer of a {what} allocated {} MiB: the buffer is sized by the length field, not by the file",
+                    (b - a) / 1024
+                );
+            }
+            cases += 1;
+        }
+    }
+    assert!(cases == 33);
+}
+
+// C19 (bounded stand-in, native; NOT a proof): column statistics whose min / max byte strings have the wrong length.
+// `statistics::from_thrift` converts the PLAIN-encoded bounds of a footer by slicing: for every physical type and every
+// pair of min / max lengths 0..=13 (new `min_value` / `max_value` fields and the deprecated `min` / `max` fields, with
+// and without a null count) it must return Ok or Err, never panic (slice index, `unwrap` on a failed array conversion,
+// `assert_eq!` on the INT96 length).
+#[test]
+fn c19_statistics__wrong_length_bounds_ok_or_err_never_panic__nat() {
+    use crate::basic::Type;
+    let types = [Type::BOOLEAN, Type::INT32, Type::INT64, Type::INT96, Type::FLOAT, Type::DOUBLE, Type::BYTE_ARRAY, Type::FIXED_LEN_BYTE_ARRAY];
+    let mut cases = 0usize;
+    let mut oks = 0usize;
+    for t in types {
+        for min_len in 0..=13usize {
+            for max_len in 0..=13usize {
+                for deprecated in [false, true] {
+                    let bytes = |n: usize| Some((0..n as u8).map(|b| b.wrapping_mul(37) ^ 0x5a).collect::<Vec<u8>>());
+                    let stats = format::Statistics {
+                        max: if deprecated { bytes(max_len) } else { None },
+                        min: if deprecated { bytes(min_len) } else { None },
+                        null_count: Some(1),
+                        distinct_count: None,
+                        max_value: if deprecated { None } else { bytes(max_len) },
+                        min_value: if deprecated { None } else { bytes(min_len) },
+                        is_max_value_exact: Some(true),
+                        is_min_value_exact: Some(false),
+                    };
+                    let res = std::panic::catch_unwind(move || crate::metadata::statistics::from_thrift(t, Some(stats)).is_ok());
+                    match res {
+                        Ok(ok) => oks += ok as usize,
+                        Err(p) => {
+                            let msg = p.downcast_ref::<String>().cloned().or_else(|| p.downcast_ref::<&str>().map(|s| s.to_string())).unwrap_or_default();
+                            panic!(
+                                "decoding column statistics panics: {t:?} column with a min of {min_len} bytes and a max of {max_len} bytes ({} fields): {}",
+                                if deprecated { "deprecated min / max" } else { "min_value / max_value" },
+                                msg.lines().next().unwrap_or("")
+                            );
+                        }
+                    }
+                    cases += 1;
+                }
+            }
+        }
+    }
+    assert!(cases == 8 * 14 * 14 * 2);
+    assert!(oks > 400, "only {oks} statistics of the family decode: the family does not exercise the conversions");
+}
+
 include!("/verif/build/kani-gen/pq_footer.playback.rs");
